@@ -214,16 +214,24 @@ struct iauth_request *iauth_validate_request(const char routing[])
 {
     struct iauth_request *req;
     char *sep;
-    unsigned int serial;
+    unsigned long serial;
+    long lid;
     int id;
 
     /* Parse the routing tag. */
-    id = strtol(routing, &sep, 16);
+    lid = strtol(routing, &sep, 16);
     if (sep[0] != '_')
         return NULL;
     serial = strtoul(sep + 1, &sep, 16);
     if (sep[0] != '\0')
         return NULL;
+
+    /* iauth_routing() writes both numbers as unsigned ints; a tag with
+     * anything wider is not one of ours.
+     */
+    if (lid < 0 || (unsigned long)lid > UINT_MAX || serial > UINT_MAX)
+        return NULL;
+    id = (int)(unsigned int)lid;
 
     /* Look up the client and check that it is the correct one. */
     req = set_find(iauth_reqs, &id);
@@ -812,6 +820,7 @@ static void iauth_read(evutil_socket_t fd, short events, void *iauth_in_v)
     char *line;
     char *sep;
     size_t argc, len;
+    long lid;
     int id, res;
 
     if (!(events & EV_READ))
@@ -839,7 +848,13 @@ static void iauth_read(evutil_socket_t fd, short events, void *iauth_in_v)
         }
 
         log_message(iauth_log, LOG_DEBUG, "> %s", line);
-        id = strtol(line, &sep, 10);
+        lid = strtol(line, &sep, 10);
+        if (lid < INT_MIN || lid > INT_MAX) {
+            /* Not an id the server can have sent; do not let it alias one. */
+            free(line);
+            continue;
+        }
+        id = (int)lid;
 
         /* Parse the remaining arguments. */
         for (argc = 0; argc < ARRAY_LENGTH(argv); ) {
